@@ -7,6 +7,7 @@
 
 #include <opm/output/eclipse/AggregateWellData.hpp>
 #include <opm/output/eclipse/AggregateConnectionData.hpp>
+#include <opm/output/eclipse/AggregateGroupData.hpp>
 #include <opm/output/eclipse/AggregateAquiferData.hpp>
 #include <opm/output/eclipse/WindowedArray.hpp>
 #include <opm/output/eclipse/WriteRestartHelpers.hpp>
@@ -32,6 +33,9 @@
 #include <opm/io/eclipse/rst/header.hpp>
 #include <opm/io/eclipse/rst/well.hpp>
 #include <opm/io/eclipse/rst/connection.hpp>
+#include <opm/io/eclipse/rst/group.hpp>
+#include <opm/input/eclipse/Schedule/Group/Group.hpp>
+#include <opm/input/eclipse/Schedule/Group/GConSump.hpp>
 #include <opm/io/eclipse/rst/state.hpp>
 #include <opm/io/eclipse/ERst.hpp>
 #include <opm/io/eclipse/RestartFileView.hpp>
@@ -219,6 +223,35 @@ ModelSpec make_model(vh::Rng& rng, int unit_choice)
         for (auto& w : m.wells) if (w.wgrupcon) d << " '" << w.name << "' 'NO' " << num(0.5 + w.efac) << " 'OIL' 0.5 /\n";
         d << "/\n";
     }
+    // D-factor correlation (WDFACCOR): non-zero SCON[StaticDFacCorrCoeff] / SWEL[DFacCorr*]
+    if (rng.coin()) {
+        d << "WDFACCOR\n";
+        for (auto& w : m.wells) if (rng.coin()) d << " '" << w.name << "' " << num(1.0e-3 * rng.range(1, 9)) << " " << num(-1.0 - 0.01 * rng.range(0, 9)) << " " << num(0.1 * rng.range(0, 5)) << " /\n";
+        d << "/\n";
+    }
+    // group level controls: GCONPROD / GCONINJE / GEFAC / GCONSUMP on the well groups (second round: IGRP/SGRP/XGRP tables)
+    if (rng.coin(2, 3)) {
+        d << "GCONPROD\n";
+        static const char* cm[] = {"ORAT", "LRAT", "GRAT", "WRAT", "NONE", "FLD"};
+        for (auto& g : m.groups) if (rng.coin(2, 3))
+            d << " '" << g << "' '" << cm[rng.below(6)] << "' " << num(4000.0 + 100.0 * rng.range(0, 20)) << " " << (rng.coin() ? num(3000.0) : std::string("1*")) << " "
+              << (rng.coin() ? num(90000.0) : std::string("1*")) << " " << (rng.coin() ? num(7000.0) : std::string("1*")) << " '" << (rng.coin() ? "RATE" : "NONE") << "' '"
+              << (rng.coin() ? "YES" : "NO") << "' " << (rng.coin(1, 3) ? num(1.0 * rng.range(1, 9)) + " 'OIL'" : std::string("1* 1*")) << " /\n";
+        if (rng.coin()) d << " 'FIELD' '" << cm[rng.below(5)] << "' " << num(9000.0) << " 3* 'RATE' /\n";
+        d << "/\n";
+    }
+    if (rng.coin()) {
+        const std::string g = rng.coin(2, 3) ? m.groups[rng.below(m.groups.size())] : std::string("FIELD");
+        const int mode = rng.range(0, 3);
+        d << "GCONINJE\n '" << g << "' '" << (rng.coin(2, 3) ? "WATER" : "GAS") << "' ";
+        if (mode == 0) d << "'RATE' " << num(4000.0) << " 3* ";
+        else if (mode == 1) d << "'REIN' 2* " << num(0.1 * rng.range(5, 12)) << " 1* ";
+        else if (mode == 2) d << "'VREP' 3* " << num(0.1 * rng.range(5, 12)) << " ";
+        else d << "'RESV' 1* " << num(4500.0) << " 2* ";
+        d << "'" << (g == "FIELD" || rng.coin() ? "YES" : "NO") << "' " << (rng.coin(1, 3) ? num(0.5 * rng.range(1, 8)) + " 'RATE'" : std::string("")) << " /\n/\n";
+    }
+    if (rng.coin()) d << "GEFAC\n '" << m.groups[rng.below(m.groups.size())] << "' " << num(0.05 * rng.range(10, 20)) << " /\n/\n";
+    if (rng.coin(1, 3)) d << "GCONSUMP\n '" << m.groups[rng.below(m.groups.size())] << "' " << num(100.0 * rng.range(1, 20)) << " " << num(50.0 * rng.range(0, 10)) << " /\n/\n";
     static const char* mon[] = {"FEB", "MAR", "APR", "MAY", "JUN"};
     for (int s = 0; s < m.nsteps; ++s) {
         d << "DATES\n 1 " << mon[s] << " 2020 /\n/\n";
@@ -323,6 +356,24 @@ void make_dyn(vh::Rng& rng, const Case& cs, std::size_t step, Dyn& dyn, bool wit
         for (const char* k : {"WGPT", "WGPTH", "WGIT", "WGITH", "WGPTS"}) wset(k, M::gas_surface_volume, 1.0e6 * rng.unit());
         for (const char* k : {"WVPT", "WVIT"}) wset(k, M::volume, 1.0e4 * rng.unit());
     }
+    // group / field level vectors the XGRP writer copies (every listed vector gets its own value), and the control mode
+    // vectors the IGRP writer reads
+    static const char* gkeys[] = {"OPP", "WPP", "OPR", "WPR", "GPR", "VPR", "WIR", "GIR", "WCT", "GOR", "OPT", "WPT", "GPT", "VPT", "OPTS", "GPTS",
+                                  "WIT", "GIT", "VIT", "OPTH", "WPTH", "GPTH", "WITH", "GITH", "OPGR", "WPGR", "GPGR", "VPGR", "OIGR", "WIGR", "GIGR",
+                                  "GCR", "GIMR", "GCT", "GIMT"};
+    for (const auto& gname : cs.sched.groupNames(step)) {
+        const bool field = gname == "FIELD";
+        const auto& grp = cs.sched.getGroup(gname, step);
+        for (const char* k : gkeys) {
+            const double v = 1.0 + 1.0e3 * rng.unit();
+            if (field) dyn.st.update(std::string("F") + k, v); else dyn.st.update_group_var(gname, std::string("G") + k, v);
+        }
+        const int pc = grp.isProductionGroup() ? Opm::Group::ProductionCMode2Int(grp.prod_cmode()) : 0;
+        auto icm = [&](Opm::Phase ph) { return grp.hasInjectionControl(ph) ? Opm::Group::InjectionCMode2Int(grp.injectionControls(ph, dyn.st).cmode) : 0; };
+        if (field) { dyn.st.update("FMCTP", pc); dyn.st.update("FMCTW", icm(Opm::Phase::WATER)); dyn.st.update("FMCTG", icm(Opm::Phase::GAS)); dyn.st.update("FMWPR", 1); dyn.st.update("FMWIN", 1); }
+        else { dyn.st.update_group_var(gname, "GMCTP", pc); dyn.st.update_group_var(gname, "GMCTW", icm(Opm::Phase::WATER)); dyn.st.update_group_var(gname, "GMCTG", icm(Opm::Phase::GAS));
+               dyn.st.update_group_var(gname, "GMWPR", 1); dyn.st.update_group_var(gname, "GMWIN", 0); }
+    }
 }
 
 // ---------------------------------------------------------------------------------------------
@@ -330,7 +381,7 @@ void make_dyn(vh::Rng& rng, const Case& cs, std::size_t step, Dyn& dyn, bool wit
 
 #define MEASURES(X) X(identity) X(length) X(time) X(pressure) X(liquid_surface_rate) X(gas_surface_rate) X(rate) \
     X(liquid_surface_volume) X(gas_surface_volume) X(volume) X(transmissibility) X(effective_Kh) X(gas_oil_ratio) \
-    X(oil_gas_ratio) X(water_cut) X(viscosity) X(dfactor) X(temperature) X(density) X(permeability)
+    X(oil_gas_ratio) X(water_cut) X(viscosity) X(dfactor) X(temperature) X(density) X(permeability) X(geometric_volume)
 
 std::string ublock(const Opm::UnitSystem& us)
 {
@@ -425,6 +476,8 @@ void corr_enums(vh::Sink& sink)
 #undef X
 }
 
+void corr_groups(vh::Sink& sink, const Case& cs, const Dyn& dyn, std::size_t sim_step, const std::vector<int>& ih);
+
 void corr_case(vh::Rng& rng, vh::Sink& sink, int unit_choice)
 {
     const auto spec = make_model(rng, unit_choice);
@@ -460,6 +513,7 @@ void corr_case(vh::Rng& rng, vh::Sink& sink, int unit_choice)
     const std::string U = ublock(us);
     sink.count("case." + spec.units);
     sink.count("wells", header.num_wells);
+    corr_groups(sink, cs, dyn, sim_step, ih);
 
     for (const auto& wname : cs.sched.wellNames(sim_step)) {
         const auto& well = cs.sched.getWell(wname, sim_step);
@@ -664,6 +718,8 @@ void corr_case(vh::Rng& rng, vh::Sink& sink, int unit_choice)
                 S("staticContrib", "CFDenom", "conn.ctfProperties().peaceman_denom", dval(conn.ctfProperties().peaceman_denom), Ix::CFDenom);
                 S("staticContrib", "EffectiveLength", "conn.connectionLength()", dval(conn.connectionLength()), Ix::EffectiveLength);
                 S("staticContrib", "CFInDeck", "conn.ctfAssignedFromInput()", ival(conn.ctfAssignedFromInput()), Ix::CFInDeck);
+                // nested conversion [D]·[viscosity] (helper staticDFacCorrCoeff inlined by the translator)
+                S("staticContrib", "StaticDFacCorrCoeff", "(conn.ctfProperties()).static_dfac_corr_coeff", dval(conn.ctfProperties().static_dfac_corr_coeff), Ix::StaticDFacCorrCoeff);
                 // the dynamic EffConnTrans item above is a copy entry in the table: drop it from the op (it has no source of its own)
                 std::string op = e.op.str(), ans = e.ans.str();
                 if (dynres) {
@@ -705,6 +761,7 @@ void corr_case(vh::Rng& rng, vh::Sink& sink, int unit_choice)
                 FD(f2, a2, "conn.skin_factor", rc.skin_factor); FD(f2, a2, "conn.cf", rc.cf); FD(f2, a2, "conn.depth", rc.depth); FD(f2, a2, "conn.diameter", rc.diameter);
                 FD(f2, a2, "conn.kh", rc.kh); FD(f2, a2, "conn.denom", rc.denom); FD(f2, a2, "conn.length", rc.length);
                 FD(f2, a2, "conn.segdist_end", rc.segdist_end); FD(f2, a2, "conn.segdist_start", rc.segdist_start);
+                FD(f2, a2, "conn.static_dfac_corr_coeff", rc.static_dfac_corr_coeff);
                 f2 << " conn.cf_kind"; a2 << " " << (rc.cf_kind == Opm::Connection::CTFKind::Defaulted ? "Defaulted" : "DeckValue"); ++n;
                 sink.emit("rstslots.dec SCON reader " + U + " " + wblock(SC, header.nsconz) + " F " + ival(n) + f2.str(), a2.str());
                 sink.count("dec.fields", n);
@@ -716,6 +773,125 @@ void corr_case(vh::Rng& rng, vh::Sink& sink, int unit_choice)
             }
             ++connID;
             sink.count("connections");
+        }
+    }
+}
+
+// ---- groups: IGRP / SGRP / XGRP against Gen/RstGroup.lean (named slots) and the hand model of the child list prefix
+void corr_groups(vh::Sink& sink, const Case& cs, const Dyn& dyn, std::size_t sim_step, const std::vector<int>& ih)
+{
+    const auto& us = cs.es.getUnits();
+    const std::string U = ublock(us);
+    auto gd = Opm::RestartIO::Helpers::AggregateGroupData(ih);
+    gd.captureDeclaredGroupData(cs.sched, us, sim_step, dyn.st, ih);
+    const auto& igrp = gd.getIGroup(); const auto& sgrp = gd.getSGroup(); const auto& xgrp = gd.getXGroup();
+    const auto header = Opm::RestartIO::RstHeader { cs.es.runspec(), us, ih, std::vector<bool>(200), std::vector<double>(1000) };
+    const std::size_t nwgmax = ih[VI::intehead::NWGMAX], ngmaxz = ih[VI::intehead::NGMAXZ];
+    sink.emit("rstgroup.size " + ival(nwgmax) + " " + ival(ngmaxz),
+              ival(ih[VI::intehead::NIGRPZ]) + " " + ival(ih[VI::intehead::NSGRPZ]) + " " + ival(ih[VI::intehead::NXGRPZ]));
+    std::vector<std::string> zgrp;
+    for (const auto& s8 : gd.getZGroup()) zgrp.push_back(s8.c_str());
+    const auto groups = cs.sched.restart_groups(sim_step);
+    for (std::size_t gi = 0; gi < groups.size(); ++gi) {
+        if (groups[gi] == nullptr) continue;
+        const auto& group = *groups[gi];
+        const bool field = group.name() == "FIELD";
+        const int* IG = igrp.data() + header.nigrpz * gi;
+        const float* SG = sgrp.data() + header.nsgrpz * gi;
+        const double* XG = xgrp.data() + header.nxgrpz * gi;
+        sink.count(field ? "group.field" : (group.wellgroup() ? "group.wellgroup" : "group.node"));
+        // child list prefix (hand model)
+        {
+            std::ostringstream op, ans;
+            std::vector<long> children;
+            if (group.wellgroup()) for (const auto& wn : group.wells()) children.push_back(cs.sched.getWell(wn, sim_step).seqIndex() + 1);
+            else for (const auto& gn : group.groups()) children.push_back(cs.sched.getGroup(gn, sim_step).insert_index());
+            op << "rstgroup.prefix " << nwgmax << " " << children.size();
+            for (auto c : children) op << " " << c;
+            for (std::size_t i = 0; i < children.size(); ++i) ans << i << ":" << IG[i] << " ";
+            ans << nwgmax << ":" << IG[nwgmax];
+            sink.emit(op.str(), ans.str());
+        }
+        // XGRP: the item each summary vector went to (every vector has its own value)
+        for (const char* k : {"OPR", "WPR", "GPR", "VPR", "WIR", "GIR", "WCT", "GOR", "OPT", "WPT", "GPT", "VPT", "WIT", "GIT", "VIT", "GCR", "GCT", "OPP", "WPP",
+                              "GIMR", "GIMT", "OPTS", "GPTS", "OPTH", "WPTH", "WITH", "GPTH", "GITH"}) {
+            const std::string key = std::string(field ? "F" : "G") + k;
+            const double v = field ? dyn.st.get(key) : dyn.st.get_group_var(group.name(), key);
+            long pos = -1; int hits = 0;
+            for (int q = 0; q < header.nxgrpz; ++q) if (XG[q] == v) { if (pos < 0) pos = q; ++hits; }
+            sink.emit(std::string("rstgroup.xkey ") + (field ? "F " : "G ") + key, hits >= 1 ? ival(pos) : std::string("none"));
+            sink.count("group.xkeys");
+        }
+        // SGRP named entries with a source the harness can evaluate
+        {
+            EncItems e;
+            auto S = [&](const char* fn, const char* slot, const std::string& src, double v, std::size_t idx) { e.add(fn, slot, src, dval(v), idx, vh::hexF32(SG[idx])); };
+            S("staticContrib", "EfficiencyFactor", "group.getGroupEfficiencyFactor()", group.getGroupEfficiencyFactor(), VI::SGroup::EfficiencyFactor);
+            if (group.isProductionGroup()) {
+                const auto& prop = group.productionProperties(); const auto cntl = group.productionControls(dyn.st);
+                if (prop.oil_target.is_numeric() || cntl.oil_target > 0.0) S("assignGroupProductionTargets", "OilRateLimit", "cntl.oil_target", cntl.oil_target, VI::SGroup::OilRateLimit);
+                if (prop.water_target.is_numeric() || cntl.water_target > 0.0) S("assignGroupProductionTargets", "WatRateLimit", "cntl.water_target", cntl.water_target, VI::SGroup::WatRateLimit);
+                if (prop.gas_target.is_numeric() || cntl.gas_target > 0.0) S("assignGroupProductionTargets", "GasRateLimit", "cntl.gas_target", cntl.gas_target, VI::SGroup::GasRateLimit);
+                if (prop.liquid_target.is_numeric() || cntl.liquid_target > 0.0) S("assignGroupProductionTargets", "LiqRateLimit", "cntl.liquid_target", cntl.liquid_target, VI::SGroup::LiqRateLimit);
+                sink.count("group.production");
+            }
+            for (auto [ph, fn, i0] : { std::tuple<Opm::Phase, const char*, int>{Opm::Phase::WATER, "assignGroupWaterInjectionTargets", 0}, {Opm::Phase::GAS, "assignGroupGasInjectionTargets", 1} }) {
+                if (!group.hasInjectionControl(ph)) continue;
+                const auto& prop = group.injectionProperties(ph); const auto cntl = group.injectionControls(ph, dyn.st);
+                const char* names[2][5] = {{"waterSurfRateLimit", "waterResRateLimit", "waterReinjectionLimit", "waterVoidageLimit", "waterGuideRate"},
+                                           {"gasSurfRateLimit", "gasResRateLimit", "gasReinjectionLimit", "gasVoidageLimit", "gasGuideRate"}};
+                const std::size_t idx[2][5] = {{VI::SGroup::waterSurfRateLimit, VI::SGroup::waterResRateLimit, VI::SGroup::waterReinjectionLimit, VI::SGroup::waterVoidageLimit, VI::SGroup::waterGuideRate},
+                                               {VI::SGroup::gasSurfRateLimit, VI::SGroup::gasResRateLimit, VI::SGroup::gasReinjectionLimit, VI::SGroup::gasVoidageLimit, VI::SGroup::gasGuideRate}};
+                if (prop.surface_max_rate.is_numeric() || cntl.surface_max_rate > 0.0) S(fn, names[i0][0], "cntl.surface_max_rate", cntl.surface_max_rate, idx[i0][0]);
+                if (prop.resv_max_rate.is_numeric() || cntl.resv_max_rate > 0.0) S(fn, names[i0][1], "cntl.resv_max_rate", cntl.resv_max_rate, idx[i0][1]);
+                if (prop.target_reinj_fraction.is_numeric() || cntl.target_reinj_fraction > 0.0) S(fn, names[i0][2], "cntl.target_reinj_fraction", cntl.target_reinj_fraction, idx[i0][2]);
+                if (prop.target_void_fraction.is_numeric() || cntl.target_void_fraction > 0.0) S(fn, names[i0][3], "cntl.target_void_fraction", cntl.target_void_fraction, idx[i0][3]);
+                S(fn, names[i0][4], "cntl.guide_rate", cntl.guide_rate, idx[i0][4]);
+                sink.count("group.injection");
+            }
+            const auto& gcs = cs.sched[sim_step].gconsump();
+            if (gcs.has(group.name())) {
+                const auto gc = gcs.get(group.name(), dyn.st);
+                S("staticContrib", "GasConsumptionRate", "gc.consumption_rate", gc.consumption_rate, VI::SGroup::GasConsumptionRate);
+                S("staticContrib", "GasImportRate", "gc.import_rate", gc.import_rate, VI::SGroup::GasImportRate);
+            }
+            sink.emit("rstgroup.enc SGRP " + U + " E " + ival(e.n) + e.op.str(), e.ans.str());
+            sink.count("group.enc.items", e.n);
+        }
+        // IGRP named positions written through `nwgmax + item`
+        for (auto [nm, ix] : { std::pair<const char*, int>{"ParentGroup", VI::IGroup::ParentGroup}, {"GConProdCMode", VI::IGroup::GConProdCMode},
+                               {"VoidageGroupIndex", VI::IGroup::VoidageGroupIndex}, {"GroupLevel", VI::IGroup::GroupLevel} })
+            sink.emit(std::string("rstgroup.pos ") + ival(nwgmax) + " " + nm, ival(nwgmax + ix));
+        // reader: the real RstGroup against the model's decoding of the same windows
+        const Opm::RestartIO::RstGroup rg(us, header, zgrp.data() + header.nzgrpz * gi, IG, SG, XG);
+        {
+            std::ostringstream f, a; int n = 0;
+#define GI(member) { f << " group." #member; a << (n++ ? " " : "") << static_cast<long>(rg.member); }
+            GI(parent_group) GI(prod_cmode) GI(winj_cmode) GI(ginj_cmode) GI(prod_guide_rate_def) GI(exceed_action) GI(inj_water_guide_rate_def)
+            GI(inj_gas_guide_rate_def) GI(voidage_group_index)
+#undef GI
+            sink.emit("rstgroup.dec IGRP " + ival(nwgmax) + " " + U + " " + wblock(IG, header.nigrpz) + " F " + ival(n) + f.str(), a.str());
+            sink.count("group.dec.fields", n);
+        }
+        {
+            std::ostringstream f, a; int n = 0;
+#define GD(member) { f << " group." #member; a << (n++ ? " " : "") << vh::hexF64(static_cast<double>(rg.member)); }
+            GD(oil_rate_limit) GD(water_rate_limit) GD(gas_rate_limit) GD(liquid_rate_limit) GD(water_surface_limit) GD(water_reservoir_limit)
+            GD(water_reinject_limit) GD(water_voidage_limit) GD(gas_surface_limit) GD(gas_reservoir_limit) GD(gas_reinject_limit) GD(gas_voidage_limit)
+            GD(glift_max_supply) GD(glift_max_rate) GD(efficiency_factor) GD(inj_water_guide_rate) GD(inj_gas_guide_rate) GD(gas_consumption_rate) GD(gas_import_rate)
+            sink.emit("rstgroup.dec SGRP " + ival(nwgmax) + " " + U + " " + wblock(SG, header.nsgrpz) + " F " + ival(n) + f.str(), a.str());
+            sink.count("group.dec.fields", n);
+            std::ostringstream f2, a2; n = 0;
+#define GX(member) { f2 << " group." #member; a2 << (n++ ? " " : "") << vh::hexF64(static_cast<double>(rg.member)); }
+            GX(oil_production_rate) GX(water_production_rate) GX(gas_production_rate) GX(liquid_production_rate) GX(water_injection_rate) GX(gas_injection_rate)
+            GX(wct) GX(gor) GX(oil_production_total) GX(water_production_total) GX(gas_production_total) GX(voidage_production_total) GX(water_injection_total)
+            GX(gas_injection_total) GX(voidage_injection_total) GX(oil_production_potential) GX(water_production_potential) GX(history_total_oil_production)
+            GX(history_total_water_production) GX(history_total_water_injection) GX(history_total_gas_production) GX(history_total_gas_injection)
+            GX(gas_consumption_total) GX(gas_import_total)
+#undef GX
+#undef GD
+            sink.emit("rstgroup.dec XGRP " + ival(nwgmax) + " " + U + " " + wblock(XG, header.nxgrpz) + " F " + ival(n) + f2.str(), a2.str());
+            sink.count("group.dec.fields", n);
         }
     }
 }
